@@ -290,6 +290,26 @@ p("c09-p-pipeline-locals", "C09", CFGF,
   "            new_cfg = self.remove_useless_symbols() \\\n                .remove_epsilon() \\\n                .remove_useless_symbols() \\\n                .eliminate_unit_productions() \\\n                .remove_useless_symbols()",
   "            step1 = self.remove_useless_symbols()\n            step2 = step1.remove_epsilon()\n            step3 = step2.remove_useless_symbols()\n            step4 = step3.eliminate_unit_productions()\n            new_cfg = step4.remove_useless_symbols()")
 
+for _prop in ("C08", "C09"):
+    b("%s-counter-distinct-symbols" % _prop.lower(), _prop, "pyformlang/cfg/cfg.py",
+      "            temp.append(len(body))\n", "            temp.append(len(set(body)))\n", "counter-matches-registrations")
+    p("%s-p-counter-both-distinct" % _prop.lower(), _prop, "pyformlang/cfg/cfg.py",
+      "            temp.append(len(body))\n            index_impact = len(temp) - 1\n            for symbol in body:\n",
+      "            temp.append(len(set(body)))\n            index_impact = len(temp) - 1\n            for symbol in set(body):\n")
+    p("%s-p-counter-alias" % _prop.lower(), _prop, "pyformlang/cfg/cfg.py",
+      "            temp.append(len(body))\n            index_impact = len(temp) - 1\n            for symbol in body:\n",
+      "            symbols = body\n            temp.append(len(symbols))\n            index_impact = len(temp) - 1\n            for symbol in production.body:\n")
+b("c09-counter-first-production-only", "C09", "pyformlang/cfg/cfg.py",
+  "                self._remaining_lists[symbol_impact][index_impact] -= 1\n                if self._remaining_lists[symbol_impact][index_impact] == 0:\n                    g_symbols.add(symbol_impact)",
+  "                self._remaining_lists[symbol_impact][0] -= 1\n                if self._remaining_lists[symbol_impact][0] == 0:\n                    g_symbols.add(symbol_impact)",
+  "counter-cell-per-production")
+p("c09-p-counter-cell-alias", "C09", "pyformlang/cfg/cfg.py",
+  "                self._remaining_lists[symbol_impact][index_impact] -= 1\n                if self._remaining_lists[symbol_impact][index_impact] == 0:\n                    g_symbols.add(symbol_impact)",
+  "                cells = self._remaining_lists[symbol_impact]\n                pos = index_impact\n                cells[pos] -= 1\n                if cells[pos] == 0:\n                    g_symbols.add(symbol_impact)")
+b("c08-epsilon-counter-by-head", "C08", "pyformlang/cfg/cfg.py",
+  "                remaining_lists[symbol_impact][index_impact] -= 1\n                if remaining_lists[symbol_impact][index_impact] == 0:\n                    if symbol_impact == self._start_symbol:",
+  "                remaining_lists[symbol_impact][-1] -= 1\n                if remaining_lists[symbol_impact][-1] == 0:\n                    if symbol_impact == self._start_symbol:",
+  "counter-cell-per-production")
 # ----------------------------------------------------------------------------- C10
 b("c10-substitute-keeps-head", "C10", CFGF,
   "                productions.append(\n                    Production(new_variables_d_local[production.head],\n                               body))",
